@@ -8,13 +8,14 @@ read groups, the engine logic of the REPAIRED design (`Model/Engine.lean` with `
 from-scratch value of `k` on the inputs committed in `s` and the external values of `s` (`evalSpec`
 never looks at cached values); `Inv` is the engine invariant (`Lemmas/EngineCoreFw1.lean`).
 
-What is proved: every theorem below under `Shape p` = `NoProjOverProj p ∨ StaticProj p`, two
-incomparable program classes: (A) NO PROJECTION READS A PROJECTION (projections read firewalls only;
-their read sets may depend on the values read), (B) EVERY PROJECTION HAS A VALUE-INDEPENDENT READ
-SEQUENCE (`ProgStatic`; projections may read projections: chains of any depth).  Firewalls,
-projections, transitive firewall sets, the trust rule, the observation refresh, dirty propagation from
-a changed firewall / projection in the same epoch, pending backward projections and their (recursive)
-execution are all in.  Corollaries `…_classA` / `…_classB` restate the main theorem per class.  The statements for all five
+What is proved: every theorem below under `Shape p`: EVERY PROJECTION THAT IS READ BY A PROJECTION HAS A
+VALUE-INDEPENDENT READ SEQUENCE (`ProgStatic`) — a projection reads firewalls and static projections
+only; its own reads may depend on the values read: dynamic projections sit on top of projection chains
+of any depth.  This contains (A) `NoProjOverProj` (no projection reads a projection) and (B)
+`StaticProj` (every projection is static).  Firewalls, projections, transitive firewall sets, the trust
+rule, the observation refresh, dirty propagation from a changed firewall / projection in the same
+epoch, pending backward projections and their (recursive, pedantic) execution are all in.
+Corollaries `…_classA` / `…_classB` restate the main theorem per class.  The statements for all five
 kinds are `C01_full_statement` / `C01_termination_full_statement`; they are NOT proved, and for the
 design without `f1r` they are FALSE (`repair_without_f1r_unsound_shape` documents the history; the
 model with `f1r` answers it correctly).
@@ -37,9 +38,11 @@ def C01_full_statement : Prop :=
 
 /-
 STATUS OF `C01_full_statement` (and of `C01_termination_full_statement`,
-`C03_exec_justified_full_statement`): NOT a theorem yet.  Proved: `Shape p` (class A: no projection
-reads a projection; class B: every projection has a value-independent read sequence).  Open: DYNAMIC
-projections that read projections.  No counterexample is known: 280 000 generated cases of the stress
+`C03_exec_justified_full_statement`): NOT a theorem yet.  Proved: `Shape p` (every projection that is
+read by a projection is static).  Open: DYNAMIC projections that are read by projections.  (Since the
+F13 repair the backward projection is a pedantic repair and needs none of the clauses below for the
+projection it repairs; they are still needed for the trust rule of NON-pedantic callers: a clean edge
+into — or above — a projection is skipped when the recorded frontier is settled.)  No counterexample is known: 280 000 generated cases of the stress
 family `--mode pjchain` (chains of 2–5 projections with conditional reads at every level) agree with
 the from-scratch oracle, in this model, in `Model/Engine.lean` and in the fixed implementation.
 
@@ -89,7 +92,7 @@ def C01_termination_full_statement : Prop :=
     committed inputs would produce": a successful query BY THE USER in a state satisfying the
     invariant returns `cur p s k`, keeps the invariant, and changes neither the committed inputs nor
     the epoch, nor the external values, nor the world.
-    PARTIAL: `Shape p` = no projection over a projection, or all projections static. -/
+    PARTIAL: `Shape p` = every projection that is read by a projection has a value-independent read sequence. -/
 theorem core_query_sound_partial {p : Program} (wf : WF p) (sh : Shape p) {s : St} (inv : Inv p s)
     {k fuel : Nat} (hk : k < fuel) {v : Val} {s' : St} (h : query p fuel .user k s = .ok (v, s')) :
     cur p s k = some v ∧ Inv p s' ∧ inputsOf s' = inputsOf s ∧ s'.epoch = s.epoch ∧
@@ -101,13 +104,13 @@ theorem core_query_sound_partial {p : Program} (wf : WF p) (sh : Shape p) {s : S
 theorem core_query_sound_classA_partial {p : Program} (wf : WF p) (pa : NoProjOverProj p) {s : St}
     (inv : Inv p s) {k fuel : Nat} (hk : k < fuel) {v : Val} {s' : St}
     (h : query p fuel .user k s = .ok (v, s')) : cur p s k = some v ∧ Inv p s' :=
-  let r := core_query_sound_partial wf (Or.inl pa) inv hk h; ⟨r.1, r.2.1⟩
+  let r := core_query_sound_partial wf pa.shape inv hk h; ⟨r.1, r.2.1⟩
 
 /-- class B: every projection has a value-independent read sequence (chains of projections) -/
 theorem core_query_sound_classB_partial {p : Program} (wf : WF p) (sp : StaticProj p) {s : St}
     (inv : Inv p s) {k fuel : Nat} (hk : k < fuel) {v : Val} {s' : St}
     (h : query p fuel .user k s = .ok (v, s')) : cur p s k = some v ∧ Inv p s' :=
-  let r := core_query_sound_partial wf (Or.inr sp) inv hk h; ⟨r.1, r.2.1⟩
+  let r := core_query_sound_partial wf (sp.shape wf) inv hk h; ⟨r.1, r.2.1⟩
 
 /-- non-vacuity of class B: `exS` is a chain of THREE projections over a firewall (2 reads the
     firewall, 3 reads 2, 4 reads 3 and the firewall); it is not in class A; after the firewall changed
@@ -124,9 +127,20 @@ example : WF exS ∧ StaticProj exS ∧ (runOps exS exSOps {}).toOption.map (·.
       .sess [.unchanged], .round [8] [], .sess [.updated], .round [5, 4] [1, 2, 3, 4, 5]] :=
   ⟨exS_wf, exS_static, by decide⟩
 
+/-- non-vacuity outside classes A and B: `exT` has the DYNAMIC projection 4 on top of the static chain
+    2 ← 3 (it reads the firewall and then, depending on its value, projection 3 or projection 2) -/
+example : WF exT ∧ Shape exT ∧ ¬ NoProjOverProj exT ∧ ¬ StaticProj exT ∧ Inv exT exTU ∧
+    cur exT exTU 5 = some 3 ∧
+    (query exT (fuelFor exT) .user 5 { exTU with log := [] }).toOption.map (fun r => (r.1, r.2.log)) =
+      some (3, [1, 2, 3, 4, 5]) ∧
+    (runOps exT exTOps {}).toOption.map (·.1) =
+      some [.sess [.fresh], .round [4] [1, 2, 3, 4, 5], .sess [.updated], .round [3] [1, 2, 3, 4, 5],
+        .sess [.unchanged], .round [3] [], .sess [.updated], .round [4, 4] [1, 2, 3, 4, 5]] :=
+  ⟨exT_wf, exT_shape, exT_not_classA, exT_not_classB, exTU_inv, by decide, by decide, by decide⟩
+
 /-- the inner statement: every value handed to an executor (or compared by `check_callee`) — the
     result of a request by a QUERY caller, pedantic or not — equals `cur`; likewise for the
-    `RepairFirewall` caller.  PARTIAL: `Shape p` = no projection over a projection, or all projections static. -/
+    `RepairFirewall` caller.  PARTIAL: `Shape p` = every projection that is read by a projection has a value-independent read sequence. -/
 theorem core_inner_query_sound_partial {p : Program} (wf : WF p) (sh : Shape p) {s : St} (inv : Inv p s)
     {k fuel : Nat} (hk : k < fuel) {v : Val} {s' : St} :
     (∀ c rv ped, query p fuel (.query c rv ped) k s = .ok (v, s') → cur p s k = some v ∧ Inv p s') ∧
@@ -142,7 +156,7 @@ theorem core_inner_query_sound_partial {p : Program} (wf : WF p) (sh : Shape p) 
     above it and returns the from-scratch value -/
 example : WF exF ∧ Shape exF ∧ Inv exF exFU ∧ 5 < fuelFor exF ∧ cur exF exFU 5 = some 5 ∧
     (query exF (fuelFor exF) .user 5 exFU).toOption.map (fun r => (r.1, r.2.log)) = some (5, [2, 3, 4, 5]) :=
-  ⟨exF_wf, Or.inl exF_noProj.over, exFU_inv, by decide, by decide, by decide⟩
+  ⟨exF_wf, exF_noProj.over.shape, exFU_inv, by decide, by decide, by decide⟩
 
 /-- non-vacuity WITH A PROJECTION: the diamond `exD` after the session that changes the firewall: the
     projection 3 is re-run by backward projection while the transitive firewall callees of key 5 are
@@ -150,13 +164,13 @@ example : WF exF ∧ Shape exF ∧ Inv exF exFU ∧ 5 < fuelFor exF ∧ cur exF 
 example : WF exD ∧ Shape exD ∧ Inv exD exDU ∧ cur exD exDU 5 = some 5 ∧
     (query exD (fuelFor exD) .user 5 { exDU with log := [] }).toOption.map (fun r => (r.1, r.2.log)) =
       some (5, [2, 3, 4, 5]) :=
-  ⟨exD_wf, Or.inl exD_pf, exDU_inv, by decide, by decide⟩
+  ⟨exD_wf, exD_pf.shape, exDU_inv, by decide, by decide⟩
 
 /-- non-vacuity: a session that the firewall ABSORBS (its input changes 1 → 2, its value stays 1):
     only the firewall is re-executed; the nodes above it are answered through clean, trusted edges -/
 example : WF exF ∧ Shape exF ∧ Inv exF exFS ∧ cur exF exFS 5 = some 16 ∧
     (query exF (fuelFor exF) .user 5 exFS).toOption.map (fun r => (r.1, r.2.log)) = some (16, [2]) :=
-  ⟨exF_wf, Or.inl exF_noProj.over, exFS_inv, by decide, by decide⟩
+  ⟨exF_wf, exF_noProj.over.shape, exFS_inv, by decide, by decide⟩
 
 /-- non-vacuity with the shape of finding F1b: key 6 has firewall set `{3}`, its dependency 5 has
     switched to the equal-valued firewall 4 while only 5 was queried, and firewall 4's input has
@@ -166,7 +180,7 @@ example : WF exA ∧ Shape exA ∧ Inv exA exAS ∧ (exAS.nodes 6).map (·.tfc) 
     (exAS.nodes 5).map (·.tfc) = some [4] ∧ exAS.dirty 5 4 = false ∧ trusted exAS 4 = false ∧
     cur exA exAS 6 = some 8 ∧
     (query exA (fuelFor exA) .user 6 exAS).toOption.map (fun r => (r.1, r.2.log)) = some (8, [4, 5, 6]) :=
-  ⟨exA_wf, Or.inl exA_noProj.over, exAS_inv, by decide, by decide, by decide, by decide, by decide, by decide⟩
+  ⟨exA_wf, exA_noProj.over.shape, exAS_inv, by decide, by decide, by decide, by decide, by decide, by decide⟩
 
 /-- "an input session (epoch bump, writes, commit with dirty propagation) re-establishes the engine
     invariant; each write reports Fresh / Updated / Unchanged exactly by presence / equality of the
@@ -189,7 +203,7 @@ example : Inv exF exFT ∧
 /-- "for every history of sessions and rounds run from the initial state, every value returned by
     every round equals the from-scratch value on the inputs committed at that point (and every write
     result is the reference one)"; the final state satisfies the invariant.
-    PARTIAL: `Shape p` = no projection over a projection, or all projections static (`C01_full_statement` is the statement for all). -/
+    PARTIAL: `Shape p` = every projection that is read by a projection has a value-independent read sequence (`C01_full_statement` is the statement for all). -/
 theorem core_history_sound_partial {p : Program} (wf : WF p) (sh : Shape p) {ops : List Op}
     {outs : List OpOut} {s' : St} (h : runOps p ops {} = .ok (outs, s')) :
     OutOK p ops outs Ref.init ∧ Inv p s' :=
@@ -197,7 +211,7 @@ theorem core_history_sound_partial {p : Program} (wf : WF p) (sh : Shape p) {ops
 
 /-- termination is a conclusion, not an assumption: with fuel above the key a query by the user in a
     state satisfying the invariant never runs out of fuel — this includes the recursion through
-    `repair_transitive_firewall_callees`.  PARTIAL: `Shape p` = no projection over a projection, or all projections static. -/
+    `repair_transitive_firewall_callees`.  PARTIAL: `Shape p` = every projection that is read by a projection has a value-independent read sequence. -/
 theorem core_query_no_out_of_fuel_partial {p : Program} (wf : WF p) (sh : Shape p) {s : St}
     (inv : Inv p s) {k fuel : Nat} (hk : k < fuel) : query p fuel .user k s ≠ .error .outOfFuel :=
   (query_spec wf sh hk inv).not_oof
@@ -212,7 +226,7 @@ theorem core_history_no_out_of_fuel_partial {p : Program} (wf : WF p) (sh : Shap
 example : WF exF ∧ Shape exF ∧ (runOps exF exDOps {}).toOption.map (·.1) =
     some [.sess [.fresh, .fresh], .round [16] [2, 3, 4, 5], .sess [.updated], .round [16] [2],
       .sess [.updated], .round [5] [2, 3, 4, 5]] :=
-  ⟨exF_wf, Or.inl exF_noProj.over, by decide⟩
+  ⟨exF_wf, exF_noProj.over.shape, by decide⟩
 
 /-- non-vacuity, finding F1b's shape: a dependency switches between two equal-valued firewalls under
     a node that is not re-queried; then the second firewall changes: the answer is 8 (today's
@@ -220,7 +234,7 @@ example : WF exF ∧ Shape exF ∧ (runOps exF exDOps {}).toOption.map (·.1) =
 example : WF exA ∧ Shape exA ∧ (runOps exA exAOps {}).toOption.map (·.1) =
     some [.sess [.fresh, .fresh, .fresh], .round [7] [3, 5, 6], .sess [.updated], .round [7] [4, 5],
       .sess [.updated], .round [8] [4, 5, 6]] :=
-  ⟨exA_wf, Or.inl exA_noProj.over, by decide⟩
+  ⟨exA_wf, exA_noProj.over.shape, by decide⟩
 
 /-- the diamond with a firewall AND A PROJECTION (inside the proved fragment: the projection reads a
     firewall): session 2 is absorbed (only the firewall runs); session
@@ -229,7 +243,7 @@ example : WF exA ∧ Shape exA ∧ (runOps exA exAOps {}).toOption.map (·.1) =
 example : WF exD ∧ Shape exD ∧ (runOps exD exDOps {}).toOption.map (·.1) =
     some [.sess [.fresh, .fresh], .round [16] [2, 3, 4, 5], .sess [.updated], .round [16] [2],
       .sess [.updated], .round [5] [2, 3, 4, 5]] :=
-  ⟨exD_wf, Or.inl exD_pf, by decide⟩
+  ⟨exD_wf, exD_pf.shape, by decide⟩
 
 /-- the order inside the last round of the previous example: firewall, projection (by backward
     projection, while the transitive firewall callees of key 5 are repaired), then 4 and 5 -/
@@ -245,7 +259,7 @@ theorem repair_without_f1r_unsound_shape : WF exC ∧ Shape exC ∧ Inv exC exCS
     cur exC exCS 6 = some 6 ∧ (runOps exC exCOps {}).toOption.map (·.1) =
     some [.sess [.fresh, .fresh], .round [5] [2, 4, 5, 6], .sess [.updated], .round [5] [2, 3, 4],
       .sess [.updated], .round [6] [3, 4, 5, 6]] :=
-  ⟨exC_wf, Or.inl exC_pf, exCS_inv, by decide, by decide⟩
+  ⟨exC_wf, exC_pf.shape, exCS_inv, by decide, by decide⟩
 
 end Qbice.CoreFw
 
